@@ -34,6 +34,7 @@ var registry = map[string]propDef{
 	"C05o": {"other", props.C01offset},
 	"C05q": {"other", props.C05outputs},
 	"C05a": {"other", props.C05walloc},
+	"C05y": {"other", props.C05aliasphase},
 	"C05r": {"other", props.C05recycle},
 	"C05l": {"other", props.C05alias},
 	"C05d": {"other", props.C05dispatch},
@@ -127,6 +128,7 @@ var registry = map[string]propDef{
 	"C09p": {"other", props.C07prefix},
 	"C08":  {"other", props.C08},
 	"C08d": {"other", props.C08dirs},
+	"C08p": {"other", props.C08params},
 	"C08k": {"other", props.C08compare},
 	"C09":  {"other", props.C09},
 	"C09g": {"other", props.C09guards},
